@@ -112,7 +112,7 @@ func c18(c *Ctx) {
 		var exits []ssa.Instruction
 		for _, b := range f.Blocks {
 			for _, in := range b.Instrs {
-				if ret, ok := an.AsReturn(in); ok && len(ret.Results) == 2 && an.MayBeNilConst(an.RetVal(ret, 0)) && an.MayBeNilConst(an.RetVal(ret, 1)) {
+				if ret, ok := an.AsReturn(in); ok && len(ret.Results) == 2 && an.MayReturnNil(ret, 0) && an.MayReturnNil(ret, 1) {
 					exits = append(exits, in)
 				}
 			}
@@ -404,7 +404,7 @@ func c18Validate(c *Ctx, v *ssa.Function, tr *an.Tracer) {
 	var nilRets []ssa.Instruction
 	for _, b := range v.Blocks {
 		for _, in := range b.Instrs {
-			if ret, ok := an.AsReturn(in); ok && len(ret.Results) == 1 && an.MayBeNilConst(an.RetVal(ret, 0)) {
+			if ret, ok := an.AsReturn(in); ok && len(ret.Results) == 1 && an.MayReturnNil(ret, 0) {
 				nilRets = append(nilRets, ret)
 			}
 		}
